@@ -273,12 +273,12 @@ def rule_insertion_guard(m):
             else:
                 res.ok(dict(function=f.display(), insertion=ctx.desc(nid), kind=what, guard='force || !hasEdge(%s,%s)' % (
                     show(x, f.unit), show(y, f.unit))) if len(res.samples) < 8 else None, fn=f.display())
-    res.require_sites(8, 'insertion sites')
+    res.require_sites(4, 'insertion sites')
     return res
 
 
 # ------------------------------------------------------------------------------------------------
-def rule_label_writes(m):
+def rule_label_writes(m, coherent_store=False):
     """A label is written only together with the insertion of its edge or in a designated setter; the
     setter of the storage class requires force or hasEdge."""
     res = RuleResult('F-LSET', 'the label store is written only in the control region of the insertion of the same '
@@ -335,6 +335,8 @@ def rule_label_writes(m):
             continue
         bad = None
         for force, has, present in itertools.product((True, False), (True, False), (True, False) if pres else (True,)):
+            if coherent_store and pres and present != has:
+                continue      # the property in whose name the rule runs excludes orphan labels (forced setEdgeLabel)
             env = {flags[0]: force}
             for h in hes:
                 env[h] = has
@@ -359,7 +361,7 @@ def rule_label_writes(m):
                              'the edge exists, and throw otherwise: ' + bad))
         else:
             res.ok(dict(function=f.display(), guard='force || hasEdge(source,destination)', cases=4), fn=f.display())
-    res.require_sites(20, 'label writes')
+    res.require_sites(10, 'label writes')
     return res
 
 
@@ -385,7 +387,7 @@ def rule_ordered_edge(m):
         else:
             res.fail(Finding('F-ORD.v', f.display(), 'orderedEdge', f.where(),
                              'orderedEdge does not return (min,max): ' + detail))
-    res.require_sites(3, 'orderedEdge instantiations')
+    res.require_sites(1, 'orderedEdge instantiations')
     return res
 
 
@@ -461,7 +463,7 @@ def rule_selfloop_convention(m):
             else:
                 res.ok(dict(function=f.display(), increment=f.expr_text(incs[0]['i'])[:90], cases=6)
                        if len(res.samples) < 6 else None, fn=f.display())
-    res.require_sites(8, 'degree / matrix accumulations')
+    res.require_sites(4, 'degree / matrix accumulations')
     return res
 
 
@@ -541,7 +543,7 @@ def rule_full_loops(m):
             res.fail(Finding('F-LOOP', f.display(), 'vertex loop', f.nloc(n['i']),
                              'a loop bounded by the graph size is not of the form for (i = 0; i < size; ++i): some '
                              'vertices are skipped or the bound is exceeded (`%s`)' % f.expr_text(n['cond'])[:80]))
-    res.require_sites(20, 'vertex loops and range bounds')
+    res.require_sites(10, 'vertex loops and range bounds')
     return res
 
 
@@ -628,7 +630,7 @@ def rule_equality(m):
                     res.fail(Finding('F-EQ', f.display(), 'delegation', f.where(),
                                      '%s must be %sthe base comparison of *this with the argument'
                                      % (opn, 'the negation of ' if neg else '')))
-    res.require_sites(20, 'comparison operators')
+    res.require_sites(10, 'comparison operators')
     return res
 
 
@@ -706,7 +708,7 @@ def rule_positive_multiplicity(m):
                                  'setEdgeMultiplicity(i,j,0) calls %s, which has a path (current multiplicity greater '
                                  'than the amount removed) that keeps the edge and its store entry: the multiplicity '
                                  'is lowered by one instead of the edge being deleted' % g.display()))
-    res.require_sites(8, 'multiplicity writes')
+    res.require_sites(4, 'multiplicity writes')
     return res
 
 
@@ -798,7 +800,7 @@ def rule_hasedge(m):
             else:
                 res.fail(Finding('F-HASEDGE', f.display(), 'labelled lookup', f.where(),
                                  'hasEdge(i,j,label) must be hasEdge(i,j) && getEdgeLabel(i,j) == label for the same pair'))
-    res.require_sites(10, 'hasEdge definitions')
+    res.require_sites(5, 'hasEdge definitions')
     return res
 
 
@@ -920,10 +922,29 @@ def rule_observers(m):
                 if ok:
                     res.ok(dict(function=f.display(), fact=list(fact)) if len(res.samples) < 10 else None, fn=f.display())
                 else:
-                    res.fail(Finding('F-OBS', f.display(), 'endpoint role %s' % '/'.join(fact), f.where(),
-                                     'observer does not use the edge endpoints in their contractual roles (expected %s)'
-                                     % (fact,)))
-    res.require_sites(30, 'observer facts')
+                    # a definite deviation (the other endpoint / another pair is used) is a violation; a body in which the
+                    # rule recognises neither is a shape it cannot decide
+                    wrong = False
+                    if fact[0] in ('index', 'cmp') and edgevar is not None:
+                        other = E('first' if fact[1] == 'second' else 'second')
+                        wrong = any((t[0] == 'idx' and t[1][0] == 'var' and t[2] == other) or
+                                    (t[0] == 'bin' and t[1] == '==' and other in (t[2], t[3]) and P0 in (t[2], t[3])) for t in allterms)
+                    if fact[0] == 'matrix' and edgevar is not None:
+                        wrong = any(t[0] == 'idx' and t[1][0] == 'idx' and {t[1][2], t[2]} == {E('first'), E('second')} for t in allterms)
+                    if fact[0] in ('label', 'label_ij', 'label_loop'):
+                        for t in allterms:
+                            for st in subterms(t):
+                                if st[0] == 'mcall' and st[1].endswith(('::getEdgeMultiplicity', '::getEdgeLabel', '::getEdgeWeight')) \
+                                        and len(st[3]) >= 2:
+                                    wrong = True     # a label is read, but not for the enumerated pair in order
+                    if fact[0] == 'matrix_ij':
+                        wrong = any(t[0] == 'bin' and t[1] in ('+=', '=') and t[2][0] == 'idx' and t[2][1][0] == 'idx' for t in allterms)
+                    if wrong:
+                        res.fail(Finding('F-OBS', f.display(), 'endpoint role %s' % '/'.join(fact), f.where(),
+                                         'observer does not use the edge endpoints in their contractual roles (%s)' % (fact,)))
+                    else:
+                        res.broken('F-OBS: %s is not in a shape the rule recognises for the fact %s' % (f.display(), fact,))
+    res.require_sites(15, 'observer facts')
     return res
 
 
@@ -1112,7 +1133,7 @@ def rule_bulk_complete(m):
                                 'unconditional full-range loop') if len(res.samples) < 20 else None, fn=f.display())
                 else:
                     res.fail(Finding('F-BULK', f.display(), name + ' loop', f.where(), why))
-    res.require_sites(40, 'bulk mutators')
+    res.require_sites(20, 'bulk mutators')
     return res
 
 
@@ -1190,7 +1211,7 @@ def rule_setters(m):
                                  'the setter does not overwrite exactly when the edge exists and create exactly when it does not: ' + bad))
             else:
                 res.ok(dict(function=disp, decision='hasEdge(%s,%s)' % (show(x, f.unit), show(y, f.unit))), fn=disp)
-    res.require_sites(4, 'setters')
+    res.require_sites(2, 'setters')
     return res
 
 
@@ -1266,7 +1287,7 @@ def rule_label_subscripts(m):
                                  '`%s` is evaluated on a path where the edge is not known to exist: for a missing edge operator[] '
                                  'inserts a default label entry, which getEdgeLabel / getEdgeMultiplicity / operator== then see'
                                  % f.expr_text(e.node)[:60]))
-    res.require_sites(8, 'label-store subscripts')
+    res.require_sites(4, 'label-store subscripts')
     return res
 
 
@@ -1338,7 +1359,7 @@ def rule_forwarding(m):
                 res.fail(Finding('F-FWD', f.display(), 'reciprocal pair of insertions', f.where(),
                                  'a reciprocal insertion must consist of one insertion of (a,b) and one of (b,a) (found %d ordered, '
                                  '%d reversed calls)' % (len(ordered), len(reversed_))))
-    res.require_sites(40, 'forwarding call sites')
+    res.require_sites(20, 'forwarding call sites')
     return res
 
 
@@ -1381,5 +1402,5 @@ def rule_observer_loops(m):
                     res.fail(Finding('F-UNCOND', f.display(), 'observer loop bypassed', f.nloc(n['i']),
                                      'the tabulating loop is skipped when `%s` is %s: the observer then reports a graph without '
                                      'those edges' % (f.expr_text(f.branch_atom(dep[0]))[:70], dep[1] == 0)))
-    res.require_sites(40, 'observer loops')
+    res.require_sites(20, 'observer loops')
     return res
